@@ -72,6 +72,7 @@ def load():
                     "replay": meta.get("replay", ""),
                     "known": meta.get("known", "").split(),
                     "expect_fail": meta.get("expect_fail", "").strip() or None,
+                    "scaled": meta.get("scaled", "").strip().lower() in ("yes", "true", "1"),
                     "timeout": int(meta.get("timeout", "900")),
                     "unwind": unwind,
                     "line": j + 1,
